@@ -2,13 +2,14 @@
 thread independence of kernels, no hidden module state."""
 import ast
 
-from ..core import (AnalysisIncomplete, PYX_FILES, call_name, kwarg, params,
-                    target_names, u, walk_local)
-from ..cykernel import (check_bounds, check_prange,
-                        check_zero_before_accumulate)
-from ..patterns import (DOCUMENTED_INPLACE, calls_in, check_empty_allocs,
-                        check_masked_ufuncs, check_no_arg_mutation, finfo,
-                        shared)
+from ..cfg import ENTRY, EXIT, Assume
+from ..core import (PYX_FILES, call_name, const_value,
+                    kwarg, names_loaded, params, target_names, u, walk_expr,
+                    walk_local)
+from ..cykernel import Kernel, check_prange, norm_extent, subscript_dims
+from ..effects import MUTATING_FUNCS_ARG0, MUTATING_METHODS
+from ..patterns import (UNINIT_ALLOCS, check_empty_allocs, check_masked_ufuncs,
+                        check_no_arg_mutation, finfo, shared)
 
 ANCHORED = [
     'enspara/info_theory/entropy.py', 'enspara/info_theory/mutual_info.py',
@@ -54,15 +55,333 @@ EXPLANATION = (
     '(D2) every np.empty/empty_like buffer is fully written (fill, x[:] =, '
     'unmasked out=, Bcast receive, or the asserted running-offset fill idiom) '
     'on every path before any read; (D3) the Cython kernels store to each '
-    'accumulator cell before accumulating (or allocate it with np.zeros); (D4) '
+    'cell they update from its previous contents (`b[i] op= e` or `b[i] = '
+    'f(b[i])`) before that update (or allocate the buffer initialised); (D4) '
     'no public routine of the anchored modules (plus the clustering and MSM '
     'entry points) can store into storage reachable from one of its arguments '
     '(interprocedural may-alias/effects fixed point over the call graph) '
     'unless documented in place; (D5) prange iterations own disjoint output '
     'cells; (D6) no function of the anchored modules writes module-level '
-    'state (global statements / module containers). Uninitialised reads or '
+    'state (global statements / module containers), and an attribute that a '
+    'method fills lazily from other attributes of its object (memo / '
+    'cached_property) is reset by every method that writes those attributes. '
+    'Uninitialised reads or '
     'mutation inside third-party calls are trusted to their documented '
     'contracts (that is what the transfer tables encode).')
+
+
+# ---------------------------------------------------------------------------
+# D3: a kernel never reads a cell of its output buffer before storing to it
+#
+# An "update from previous contents" of a typed buffer cell is either spelling
+# of a read-modify-write:  buf[i] op= e   or   buf[i] = f(buf[i], ...)  (the
+# latter also covers `out[i] = sqrt(out[i])`).  Each one needs, on every
+# execution, an earlier plain store to the cell it reads: in the same iteration
+# (a dominating store with the same index), by an earlier loop nest over the
+# same ranges that stores every cell unconditionally, by a dominating
+# whole-buffer store, or because the buffer is allocated initialised here.
+# Three-valued: an index/range relation the rule cannot decide (helper calls,
+# computed indices) is ANALYSIS-INCOMPLETE, not a violation.
+
+def _buf_of(t, k):
+    if isinstance(t, ast.Subscript) and isinstance(t.value, ast.Name) and t.value.id in k.buffers:
+        return t.value.id
+    return None
+
+
+def _is_element(sub):
+    return not any(isinstance(d, ast.Slice) or (isinstance(d, ast.Constant) and d.value in (None, Ellipsis))
+                   for d in subscript_dims(sub))
+
+
+def _is_whole(sub):
+    return all((isinstance(d, ast.Slice) and d.lower is None and d.upper is None and d.step is None)
+               or (isinstance(d, ast.Constant) and d.value is Ellipsis) for d in subscript_dims(sub))
+
+
+def _cell_updates(fn, k):
+    """[(stmt, buf, [cells read])]: statements that update a buffer cell from the buffer's previous contents."""
+    out = []
+    for s in walk_local(fn):
+        if isinstance(s, ast.AugAssign):
+            buf = _buf_of(s.target, k)
+            if buf is not None:
+                out.append((s, buf, [s.target]))
+        elif isinstance(s, ast.Assign) and len(s.targets) == 1:
+            buf = _buf_of(s.targets[0], k)
+            if buf is None or buf not in names_loaded(s.value):
+                continue
+            cells, seen = [], set()
+            for r in walk_expr(s.value):
+                if _buf_of(r, k) == buf and _is_element(r) and u(r) not in seen:
+                    seen.add(u(r))
+                    cells.append(r)
+            if cells:
+                out.append((s, buf, cells))
+    return out
+
+
+def _idx(fi, sub):
+    out = []
+    for d in subscript_dims(sub):
+        try:
+            out.append(fi.xu(d))
+        except Exception:
+            out.append(u(d))
+    return out
+
+
+def _ancestors(mod, node, stop):
+    out = []
+    p = mod.parent.get(node)
+    while p is not None and p is not stop:
+        out.append(p)
+        p = mod.parent.get(p)
+    return out
+
+
+def _earlier_sibling(k, p, s):
+    """(sp, ss): statements of one statement list, sp before ss, sp containing p and ss containing s
+    (the deepest such list) - sp has run to completion whenever control reaches ss."""
+    mod, fn = k.mod, k.fn
+    chain_p = [p] + _ancestors(mod, p, None)
+    chain_s = [s] + _ancestors(mod, s, None)
+    ids_s = {id(x): i for i, x in enumerate(chain_s)}
+    for i, a in enumerate(chain_p):
+        if id(a) in ids_s and i > 0 and ids_s[id(a)] > 0:
+            sp, ss = chain_p[i - 1], chain_s[ids_s[id(a)] - 1]
+            if sp is ss:
+                return None
+            for field in ('body', 'orelse', 'finalbody'):
+                lst = getattr(a, field, None)
+                if isinstance(lst, list) and sp in lst and ss in lst:
+                    return (sp, ss) if lst.index(sp) < lst.index(ss) else None
+            return None
+    return None
+
+
+def _range_of(fi, loop):
+    """(lo text, hi node, step text) of a range/prange loop, else None."""
+    it = loop.iter
+    if not (isinstance(it, ast.Call) and call_name(it) in ('range', 'prange')):
+        return None
+    a = it.args
+    if len(a) == 1:
+        return '0', a[0], '1'
+    if len(a) == 2:
+        return fi.xu(a[0]), a[1], '1'
+    if len(a) == 3:
+        return fi.xu(a[0]), a[1], fi.xu(a[2])
+    return None
+
+
+def _same_range(k, lp, la):
+    if lp is la:
+        return True
+    rp, ra = _range_of(k.fi, lp), _range_of(k.fi, la)
+    if rp is None or ra is None:
+        return None
+    if rp[0] != ra[0] or rp[2] != ra[2]:
+        return False
+    hp, ha = rp[1], ra[1]
+    return k.fi.xu(hp) == k.fi.xu(ha) or u(hp) == u(ha) or k.uf.same(norm_extent(hp), norm_extent(ha)) \
+        or k.uf.same(norm_extent(k.fi.expand(hp)), norm_extent(k.fi.expand(ha)))
+
+
+def _loop_with_target(loops, text):
+    for l in loops:
+        if isinstance(l.target, ast.Name) and l.target.id == text:
+            return l
+    return None
+
+
+def _simple_index(k, texts, loops):
+    """Index made of loop variables of the enclosing loops, C scalars and integer constants only."""
+    ok_names = {l.target.id for l in loops if isinstance(l.target, ast.Name)} | set(k.scalars)
+    for t in texts:
+        try:
+            e = ast.parse(t, mode='eval').body
+        except SyntaxError:
+            return False
+        for n in ast.walk(e):
+            if isinstance(n, (ast.Call, ast.Subscript, ast.Attribute)):
+                return False
+            if isinstance(n, ast.Name) and n.id not in ok_names:
+                return False
+    return True
+
+
+def _stored_before(k, s, cell, buf):
+    """('ok' | 'bad' | 'unknown', reason): is buf[cell] stored on every execution before statement s reads it?"""
+    fi, mod = k.fi, k.mod
+    idx = _idx(fi, cell)
+    loops_s = k.enclosing_loops(s)
+    cands = []
+    undecided = []
+    for p in walk_local(k.fn):
+        # an initialising call statement: buf.fill(c) / helper(buf, ...)
+        if isinstance(p, ast.Expr) and isinstance(p.value, ast.Call) and p is not s:
+            c = p.value
+            if isinstance(c.func, ast.Attribute) and isinstance(c.func.value, ast.Name) and c.func.value.id == buf \
+                    and c.func.attr == 'fill' and fi.cfg.dominates(p, s):
+                return 'ok', 'whole buffer is filled (`%s`) before the update' % u(p)
+            if any(isinstance(a, ast.Name) and a.id == buf for a in list(c.args) + [kw.value for kw in c.keywords]) \
+                    and (fi.cfg.dominates(p, s) or _earlier_sibling(k, p, s)):
+                undecided.append('`%s` may initialise %s' % (u(p)[:60], buf))
+            continue
+        if not (isinstance(p, ast.Assign) and p is not s):
+            continue
+        tg = next((t for t in p.targets if _buf_of(t, k) == buf), None)
+        if tg is None or buf in names_loaded(p.value):
+            continue
+        dom = fi.cfg.dominates(p, s)
+        sib = _earlier_sibling(k, p, s)
+        if not dom and not sib:
+            continue
+        if _is_whole(tg):
+            if dom:
+                return 'ok', 'whole buffer is stored (`%s`) before the update' % u(p)
+            undecided.append('whole-buffer store `%s` does not dominate the update' % u(p))
+            continue
+        if not _is_element(tg):
+            undecided.append('partial slice store `%s`' % u(p))
+            continue
+        cands.append(p)
+        pidx = _idx(fi, tg)
+        loops_p = k.enclosing_loops(p)
+        ids_s = set(map(id, loops_s))
+        # same iteration: a dominating store with the same index inside (a prefix of) the same loop nest
+        if dom and pidx == idx and set(map(id, loops_p)) <= ids_s:
+            return 'ok', 'cell %s[%s] is stored (`%s`) before every accumulation in the same iteration' % (
+                buf, ', '.join(u(d) for d in subscript_dims(cell)), u(p))
+        # an earlier loop nest over the same ranges that stores every cell unconditionally
+        if sib and len(pidx) == len(idx):
+            sp = sib[0]
+            own = [l for l in loops_p if id(l) not in ids_s]
+            inner = [a for a in _ancestors(mod, p, None)]
+            inner = inner[:inner.index(sp) + 1] if sp in inner else []
+            uncond = bool(inner) and all(isinstance(a, ast.For) for a in inner) and not any(
+                isinstance(x, (ast.Break, ast.Continue, ast.Return)) for x in walk_local(sp))
+            good, used, unknown = True, set(), False
+            for a, b in zip(pidx, idx):
+                lp, la = _loop_with_target(loops_p, a), _loop_with_target(loops_s, b)
+                if lp is not None and la is not None:
+                    same = _same_range(k, lp, la)
+                    if same:
+                        used.add(id(lp))
+                        continue
+                    unknown = unknown or same is None
+                elif lp is None and la is None and a == b and isinstance(
+                        const_value(ast.parse(a, mode='eval').body), int):
+                    continue
+                good = False
+                break
+            if good and uncond and used >= set(map(id, own)):
+                lp0 = own[-1] if own else sp
+                return 'ok', 'an earlier loop over the same range %s stores %s[%s] for every cell' % (
+                    u(lp0.iter) if isinstance(lp0, ast.For) else '', buf, ', '.join(u(d) for d in subscript_dims(tg)))
+            if unknown or (good and not uncond):
+                undecided.append('`%s`: loop ranges / conditions of the earlier store not decided' % u(p))
+            elif not (_simple_index(k, pidx, loops_p) and _simple_index(k, idx, loops_s)):
+                undecided.append('`%s`: computed index' % u(p))
+        elif not (_simple_index(k, pidx, loops_p) and _simple_index(k, idx, loops_s)):
+            undecided.append('`%s`: computed index' % u(p))
+    where = '%s[%s]' % (buf, ', '.join(u(d) for d in subscript_dims(cell)))
+    if undecided:
+        return 'unknown', 'cannot decide whether %s is stored first (%s)' % (where, '; '.join(undecided[:3]))
+    return 'bad', 'no dominating plain store to %s' % where
+
+
+def d3_zero_first(ck, rule, mod, fn, fused):
+    k = Kernel(mod, fn, fused)
+    q = fn.name
+    n = 0
+    for s, buf, cells in _cell_updates(fn, k):
+        n += 1
+        allocs = [a for a in walk_local(fn) if isinstance(a, (ast.Assign, ast.AnnAssign))
+                  and buf in target_names(a.targets[0] if isinstance(a, ast.Assign) else a.target)
+                  and a.value is not None]
+        if allocs:
+            ok = all(isinstance(a.value, (ast.BinOp, ast.Call)) and not (
+                isinstance(a.value, ast.Call) and call_name(a.value) in UNINIT_ALLOCS) for a in allocs)
+            ck.check(ok, rule, mod, s, q, '%s  [alloc: %s]' % (u(s), '; '.join(u(a) for a in allocs)),
+                     'accumulator is allocated initialised in this function',
+                     'accumulator `%s` is allocated uninitialised (np.empty) and then accumulated into' % buf)
+            continue
+        verdicts = [_stored_before(k, s, c, buf) for c in cells]
+        bad = [w for v, w in verdicts if v == 'bad']
+        unk = [w for v, w in verdicts if v == 'unknown']
+        if bad:
+            ck.bad(rule, mod, s, q, u(s),
+                   'the kernel accumulates into caller-supplied `%s` (%s) without first storing '
+                   'to that cell: the result depends on the previous contents of the buffer' % (buf, bad[0]))
+        elif unk:
+            ck.missing(rule, '%s %s: %s' % (mod.loc(s), u(s)[:80], unk[0]))
+        else:
+            ck.ok(rule, mod, s, u(s), verdicts[0][1])
+    return n
+
+
+# ---------------------------------------------------------------------------
+# D5: the shared prange rule compares index text with the loop variable; an
+# index held in a thread-private temporary (`r = i; out[r] = 0`) is looked
+# through here before an ownership violation is reported, and an index the
+# rule cannot resolve (helper call, table lookup) is ANALYSIS-INCOMPLETE.
+
+class _PrangeRecheck:
+    def __init__(self, ck, mod, fn):
+        self._ck, self._mod, self._fn = ck, mod, fn
+        self._fi = finfo(mod, fn)
+
+    def __getattr__(self, name):
+        return getattr(self._ck, name)
+
+    def _prange_of(self, node):
+        for a in _ancestors(self._mod, node, self._fn):
+            if isinstance(a, ast.For) and getattr(a, 'cy_prange', False):
+                return a
+        return None
+
+    def _again(self, sub):
+        """('ok', position) if some index dimension is the prange variable after expanding temporaries;
+        ('unknown', None) if a dimension is a call result computed from the prange variable (an index
+        function the rule cannot see through); else ('bad', None) - a data-dependent table lookup
+        `a[t, k]` is not injective in t and stays a violation."""
+        loop = self._prange_of(sub)
+        if loop is None or not isinstance(loop.target, ast.Name):
+            return 'bad', None
+        v = loop.target.id
+        unknown = False
+        for i, d in enumerate(subscript_dims(sub)):
+            try:
+                e = self._fi.expand(d)
+            except Exception:
+                e = d
+            if isinstance(e, ast.Name) and e.id == v:
+                return 'ok', i
+            if isinstance(e, ast.Call) and v in names_loaded(e):
+                unknown = True
+        return ('unknown' if unknown else 'bad'), None
+
+    def bad(self, rule, mod, node, function, construct, detail, witness=None):
+        if rule.endswith('.owner') and isinstance(node, (ast.Assign, ast.AugAssign)):
+            tg = node.targets[0] if isinstance(node, ast.Assign) else node.target
+            if isinstance(tg, ast.Subscript):
+                v, pos = self._again(tg)
+                if v == 'ok':
+                    return self._ck.ok(rule, mod, node, construct, 'index position %d is the prange variable '
+                                       '(through a thread-private temporary)' % pos)
+                if v == 'unknown':
+                    return self._ck.missing(rule, '%s %s: index computed from the prange variable by a call '
+                                            'the rule cannot see through' % (mod.loc(node), construct[:80]))
+        return self._ck.bad(rule, mod, node, function, construct, detail, witness)
+
+    def check(self, cond, rule, mod, node, function, construct, detail_ok='', detail_bad='', witness=None):
+        if not cond and rule.endswith('.reads') and isinstance(node, ast.Subscript):
+            v, pos = self._again(node)
+            if v == 'ok':
+                cond = True
+        return self._ck.check(cond, rule, mod, node, function, construct, detail_ok, detail_bad, witness)
 
 
 def public_functions(mod):
@@ -143,6 +462,305 @@ def d6_globals(ck, rels):
     return n
 
 
+# ---------------------------------------------------------------------------
+# D6 (instance level): a memoised derived attribute is invalidated by every
+# writer of what it was derived from
+#
+# `self.A` is a *lazily filled derived attribute* when a method other than the
+# constructor stores `self.A = <expr reading other attributes self.B...>` under
+# a guard that tests `self.A` itself (if self.A is None / hasattr / early
+# return / except AttributeError), or when a method is wrapped in
+# cached_property / lru_cache / cache and reads self.B.  From then on the answer
+# of every reader of A depends on WHEN A was first read unless every method
+# that writes a source attribute B (rebinding, element store, in-place method)
+# also resets A on every normally-completing path through that write (a store /
+# del of self.A, or a call of a method - e.g. self.__init__ - that always
+# resets it).  A writer without such a reset makes two objects with identical
+# contents answer differently depending on their call history.
+
+MEMO_DECORATORS = ('cached_property', 'functools.cached_property', 'lru_cache', 'functools.lru_cache',
+                   'cache', 'functools.cache')
+CONSTRUCTORS = ('__init__', '__new__', '__setstate__')
+
+
+def _self_attr(e, me):
+    if isinstance(e, ast.Attribute) and isinstance(e.value, ast.Name) and e.value.id == me:
+        return e.attr
+    return None
+
+
+def _stored_attr(t, me):
+    """Attribute of `me` whose storage a store to target `t` writes: self.A, self.A[i], self.A.x[i] ..."""
+    while isinstance(t, (ast.Subscript, ast.Attribute)):
+        a = _self_attr(t, me)
+        if a is not None:
+            return a
+        t = t.value
+    return None
+
+
+def _mentions(expr, me, attr):
+    for n in walk_expr(expr):
+        if _self_attr(n, me) == attr:
+            return True
+        if isinstance(n, ast.Call) and call_name(n) in ('hasattr', 'getattr') and len(n.args) >= 2 and \
+                isinstance(n.args[0], ast.Name) and n.args[0].id == me and const_value(n.args[1]) == attr:
+            return True
+        if isinstance(n, ast.Constant) and n.value == attr:
+            return True        # '<attr>' in self.__dict__ / vars(self)
+    return False
+
+
+def _decorators(fn):
+    out = []
+    for d in fn.decorator_list:
+        out.append(call_name(d) if isinstance(d, ast.Call) else (u(d)))
+    return out
+
+
+def _methods(cls):
+    """Direct methods of the class (nested defs belong to their method)."""
+    direct = []
+    stack = list(cls.body)
+    while stack:
+        s = stack.pop(0)
+        if isinstance(s, (ast.FunctionDef, ast.AsyncFunctionDef)):
+            direct.append(s)
+        elif isinstance(s, (ast.If, ast.Try, ast.With)):
+            stack = [c for c in ast.iter_child_nodes(s) if isinstance(c, ast.stmt)] + stack
+    return direct
+
+
+def _receiver(fn):
+    ds = _decorators(fn)
+    if 'staticmethod' in ds or 'classmethod' in ds:
+        return None
+    ps = params(fn)
+    return ps[0] if ps else None
+
+
+def _attrs_read(mod, cls_methods, fn, expr_or_fn, me, depth=2):
+    """Attributes of `me` the value of an expression (or a whole method body) is computed from; reads through
+    properties / methods of the same class are followed `depth` levels."""
+    out = set()
+    roots = [expr_or_fn] if isinstance(expr_or_fn, ast.expr) else list(walk_local(expr_or_fn))
+    for r in roots:
+        for n in (walk_expr(r) if isinstance(r, ast.expr) else [r]):
+            a = _self_attr(n, me)
+            if a is None or not isinstance(getattr(n, 'ctx', None), ast.Load):
+                continue
+            callee = [m for m in cls_methods if m.name == a]
+            if callee:
+                if depth > 0:
+                    m = callee[-1]
+                    me2 = _receiver(m)
+                    if me2:
+                        out |= _attrs_read(mod, cls_methods, m, m, me2, depth - 1)
+            else:
+                out.add(a)
+    return out
+
+
+def _memo_fills(mod, cls, methods):
+    """[(attr A, method M, fill statement, sources)] of the class."""
+    out = []
+    for fn in methods:
+        me = _receiver(fn)
+        if me is None:
+            continue
+        decs = _decorators(fn)
+        if any(d in MEMO_DECORATORS for d in decs):
+            src = _attrs_read(mod, methods, fn, fn, me) - {fn.name}
+            if src:
+                out.append((fn.name, fn, fn, src, 'decorator'))
+            continue
+        if fn.name in CONSTRUCTORS:
+            continue
+        fi = finfo(mod, fn)
+        for s in walk_local(fn):
+            if isinstance(s, ast.Assign):
+                tgs, val = s.targets, s.value
+            elif isinstance(s, ast.AnnAssign) and s.value is not None:
+                tgs, val = [s.target], s.value
+            else:
+                continue
+            for t in tgs:
+                A = _self_attr(t, me)
+                if A is None or isinstance(val, ast.Constant):
+                    continue
+                guarded = False
+                for n in fi.cfg.nodes:
+                    if isinstance(n, Assume) and _mentions(n.test, me, A) and fi.cfg.dominates(n, s):
+                        guarded = True
+                        break
+                if not guarded:
+                    for a in _ancestors(mod, s, fn):
+                        if isinstance(a, ast.ExceptHandler):
+                            tr = mod.parent.get(a)
+                            if isinstance(tr, ast.Try) and any(_mentions(b, me, A) for b in tr.body):
+                                guarded = True
+                if not guarded:
+                    continue
+                try:
+                    v = fi.expand(val)
+                except Exception:
+                    v = val
+                src = _attrs_read(mod, methods, fn, v, me) - {A}
+                if src:
+                    out.append((A, fn, s, src, 'guarded fill'))
+    return out
+
+
+def _attr_writes(mod, fn, me, attrs):
+    """[(stmt node, attr, text)] : stores / in-place updates of self.<attr> (attr in attrs) in method fn."""
+    out = []
+    for s in walk_local(fn):
+        tgs = []
+        if isinstance(s, ast.Assign):
+            tgs = list(s.targets)
+        elif isinstance(s, (ast.AugAssign, ast.AnnAssign)):
+            tgs = [s.target] if not (isinstance(s, ast.AnnAssign) and s.value is None) else []
+        elif isinstance(s, ast.Delete):
+            tgs = list(s.targets)
+        elif isinstance(s, (ast.For, ast.AsyncFor)):
+            tgs = [s.target]
+        flat = []
+        for t in tgs:
+            flat += list(t.elts) if isinstance(t, (ast.Tuple, ast.List)) else [t]
+        for t in flat:
+            a = _stored_attr(t, me)
+            if a in attrs:
+                out.append((s, a, u(s)))
+        if isinstance(s, ast.Call):
+            cn = call_name(s) or ''
+            if isinstance(s.func, ast.Attribute) and s.func.attr in MUTATING_METHODS:
+                a = _stored_attr(s.func.value, me)
+                if a in attrs:
+                    out.append((s, a, u(s)))
+            if cn in MUTATING_FUNCS_ARG0 and s.args:
+                a = _stored_attr(s.args[0], me)
+                if a in attrs:
+                    out.append((s, a, u(s)))
+            o = kwarg(s, 'out')
+            if o is not None and _stored_attr(o, me) in attrs:
+                out.append((s, _stored_attr(o, me), u(s)))
+    return out
+
+
+def _reset_nodes(mod, methods, fn, me, A, kind, depth=2):
+    """CFG statements of method fn after which self.A is certainly fresh (stored, deleted, cache cleared,
+    or a method of the same object that always resets it was called)."""
+    fi = finfo(mod, fn)
+    out = []
+    for s in walk_local(fn):
+        hit = False
+        if isinstance(s, (ast.Assign, ast.AugAssign, ast.AnnAssign, ast.Delete)):
+            tgs = s.targets if isinstance(s, (ast.Assign, ast.Delete)) else [s.target]
+            for t in tgs:
+                for e in (t.elts if isinstance(t, (ast.Tuple, ast.List)) else [t]):
+                    if _self_attr(e, me) == A:
+                        hit = True
+        elif isinstance(s, ast.Call):
+            f = s.func
+            if isinstance(f, ast.Attribute):
+                # self.m(...) / type(self).m(self, ...) / super().m(...) with m always resetting A
+                callee = [m for m in methods if m.name == f.attr]
+                recv_self = (isinstance(f.value, ast.Name) and f.value.id == me) or \
+                    (isinstance(f.value, ast.Call) and call_name(f.value) in ('type', 'super')) or \
+                    (s.args and isinstance(s.args[0], ast.Name) and s.args[0].id == me)
+                if callee and recv_self and depth > 0 and callee[-1] is not fn and \
+                        _always_resets(mod, methods, callee[-1], A, kind, depth - 1):
+                    hit = True
+                if kind == 'decorator' and f.attr in ('cache_clear', 'pop', '__delattr__') and _mentions(s, me, A):
+                    hit = True
+            elif call_name(s) == 'delattr' and _mentions(s, me, A):
+                hit = True
+        if hit:
+            st = fi.stmt(s)
+            if st is not None and st not in out:
+                out.append(st)
+    return out
+
+
+def _always_resets(mod, methods, fn, A, kind, depth=1):
+    me = _receiver(fn)
+    if me is None:
+        return False
+    fi = finfo(mod, fn)
+    resets = _reset_nodes(mod, methods, fn, me, A, kind, depth)
+    if not resets:
+        return False
+    raises = [n for n in fi.cfg.nodes if isinstance(n, ast.Raise)]
+    return not fi.cfg.reachable(ENTRY, EXIT, avoiding=resets + raises)
+
+
+def _reinvoked(methods, ctor):
+    """Some method of the class calls the constructor again on an existing object (self.__init__(...))."""
+    for m in methods:
+        for c in walk_local(m):
+            if isinstance(c, ast.Call) and isinstance(c.func, ast.Attribute) and c.func.attr == ctor.name \
+                    and not (isinstance(c.func.value, ast.Call) and call_name(c.func.value) == 'super'):
+                return True
+    return False
+
+
+def d6_derived_caches(ck, rels):
+    rule = 'C19.D6.derived-cache'
+    n = 0
+    for rel in rels:
+        mod = ck.repo.mod(rel)
+        for cq, cls in mod.classes.items():
+            methods = _methods(cls)
+            n += 1
+            fills = _memo_fills(mod, cls, methods)
+            if not fills:
+                ck.ok(rule, mod, cls, 'class %s' % cq,
+                      'no lazily filled / memoised attribute derived from other attributes of the object')
+                continue
+            for A, M, fill, src, kind in fills:
+                mq = '%s.%s' % (cq, M.name)
+                ck.analysed(mod, M)
+                writers = 0
+                for W in methods:
+                    me = _receiver(W)
+                    if me is None or W is M:
+                        continue
+                    ws = _attr_writes(mod, W, me, src)
+                    if not ws:
+                        continue
+                    if W.name in CONSTRUCTORS and not _reinvoked(methods, W):
+                        ck.ok(rule, mod, W, 'self.%s cached in %s / writes in %s.%s' % (A, M.name, cq, W.name),
+                              'the constructor runs on a fresh object (no method re-invokes it): nothing is cached yet')
+                        continue
+                    fi = finfo(mod, W)
+                    resets = _reset_nodes(mod, methods, W, me, A, kind)
+                    raises = [x for x in fi.cfg.nodes if isinstance(x, ast.Raise)]
+                    for w, b, text in ws:
+                        writers += 1
+                        st = fi.stmt(w)
+                        wq = '%s.%s' % (cq, W.name)
+                        if st is None:
+                            ck.missing(rule, 'write `%s` of %s not located in the CFG' % (text[:80], wq))
+                            continue
+                        stale = st not in resets and \
+                            (st is ENTRY or fi.cfg.reachable(ENTRY, st, avoiding=resets)) and \
+                            fi.cfg.reachable(st, EXIT, avoiding=resets + raises)
+                        ck.check(not stale, rule, mod, w, wq,
+                                 'self.%s (cached in %s from self.%s) <- %s' % (A, M.name, b, text[:120]),
+                                 'every path through this write of self.%s also resets the cached self.%s' % (b, A),
+                                 '%s fills self.%s once from self.%s (%s: `%s`) and keeps it; %s writes self.%s '
+                                 'without resetting self.%s on some path, so a later read of self.%s depends on '
+                                 'whether it had been read before this call - two objects with identical '
+                                 'contents answer differently depending on their call history'
+                                 % (mq, A, ', self.'.join(sorted(src)), kind,
+                                    (u(fill) if not isinstance(fill, (ast.FunctionDef, ast.AsyncFunctionDef))
+                                     else '@' + ' @'.join(_decorators(fill)))[:100], wq, b, A, A))
+                if not writers:
+                    ck.ok(rule, mod, fill, 'self.%s cached in %s' % (A, mq),
+                          'no method writes its sources self.%s after construction' % ', self.'.join(sorted(src)))
+    return n
+
+
 def check(ck):
     repo = ck.repo
     repo.all_modules()
@@ -162,10 +780,12 @@ def check(ck):
         for q, fn in mod.functions.items():
             if not getattr(fn, 'cy_directives', {}) or fn.cy_directives.get('boundscheck') is not False:
                 continue
-            nz += check_zero_before_accumulate(ck, 'C19.D3.zero-first', mod, fn, fused)
-            npr += check_prange(ck, 'C19.D5.prange', mod, fn, fused)
-    ck.floor('C19.D3.zero-first', nz, 5, 'kernel accumulations')
-    ck.floor('C19.D5.prange', npr, 7, 'prange loops')
+            nz += d3_zero_first(ck, 'C19.D3.zero-first', mod, fn, fused)
+            npr += min(check_prange(_PrangeRecheck(ck, mod, fn), 'C19.D5.prange', mod, fn, fused), 1)
+    ck.floor('C19.D3.zero-first', nz, 5, 'kernel read-modify-write updates of a buffer cell')
+    # counted per kernel: whether a zeroing pass is its own prange loop, a sequential loop or `out[:] = 0`
+    # is immaterial to ownership (7 prange loops in 4 kernels on the pinned tree)
+    ck.floor('C19.D5.prange', npr, 4, 'kernels with a prange loop')
     # D4
     rels = ANCHORED + EXTRA_ENTRY_MODULES
     n4 = d4_effects(ck, rels)
@@ -179,6 +799,8 @@ def check(ck):
                  and '/apps/' not in m.rel and '/data/' not in m.rel]
         d4_effects(ck, other, observe_only=True)
     d6_globals(ck, [r for r in ANCHORED if r.endswith('.py')] + ['enspara/util/load.py', 'enspara/util/parallel.py'])
+    nc = d6_derived_caches(ck, [m.rel for m in repo.py_modules() if '/apps/' not in m.rel])
+    ck.floor('C19.D6.derived-cache', nc, 8, 'classes of the package scanned for memoised derived attributes')
     ck.assume('numpy/scipy/mdtraj/PyTables honour their documented contracts (no uninitialised '
               'reads, no mutation of inputs beyond what the transfer tables list)')
     ck.assume('routines that are random by contract (synthetic_trajectory, unseeded k-medoids) '
